@@ -163,7 +163,8 @@ def refine_cases(draw):
             n['k'], n['p'] = 3, 1
     w_prec = draw(st.permutations([2, 4, 8]))[:draw(st.integers(2, 3))]
     if draw(st.integers(0, 3)) == 0:
-        w_prec = [0] + list(w_prec)
+        w_prec = list(w_prec)
+        w_prec.insert(draw(st.integers(0, len(w_prec))), 0)      # 0 listed anywhere
     return {'spec': spec, 'w_prec': list(w_prec), 'wseed': draw(st.integers(0, 30)),
             'aseed': draw(st.integers(0, 500))}
 
@@ -198,8 +199,8 @@ def wide_cases(draw):
     w_prec = list(draw(st.permutations([2, 4, 8])))
     if draw(st.integers(0, 4)) == 0:
         w_prec = w_prec[:2]
-    if draw(st.integers(0, 4)) == 0:
-        w_prec = [0] + w_prec
+    if draw(st.integers(0, 1)) == 0:
+        w_prec.insert(draw(st.integers(0, len(w_prec))), 0)          # 0 listed anywhere
     return {'spec': spec, 'w_prec': w_prec, 'wseed': draw(st.integers(0, 5)),
             'aseed': draw(st.integers(0, 500)),
             'cuts': [[draw(cut) for _ in range(3)] for _ in range(len(widths) + 1)]}
@@ -428,7 +429,7 @@ CHECK = Check(
         Part('refine', oracle_refine, strategy=refine_cases(),
              budget={'quick': 120, 'thorough': 500}, shards={'quick': 1, 'thorough': 16}),
         Part('refine-wide', oracle_refine, strategy=wide_cases(),
-             budget={'quick': 60, 'thorough': 600}, shards={'quick': 4, 'thorough': 16}),
+             budget={'quick': 160, 'thorough': 800}, shards={'quick': 8, 'thorough': 16}),
     ],
     rule=("step: _reassign_precisions(best, scores) called directly with score matrices up to 4 x 8 "
           "(uniform random, with ties, or binary as after a previous reassignment) and targets = "
